@@ -493,3 +493,81 @@ pub fn body_mode(a: &[String]) -> Value {
            "expected": if a[3] == "signed" { "accepted" } else { "refused (the signed digest is not the body's)" },
            "observed": {"status": st, "backend_calls": calls, "body": rbody.chars().take(120).collect::<String>()}, "replay_args": ["sigv4-body", a[0], a[1], a[2], a[3]]})
 }
+
+/// sigv2-tamper: GET /bkt/key signed correctly with signature version 2 (header auth, then presigned URL); the presented signature
+/// text is then altered (empty, truncated, extended, last character changed): every altered request must be refused
+pub fn v2_tamper() -> Value {
+    use sha1::Sha1;
+    let sign = |sts: &str| { let mut m = <Hmac<Sha1> as KeyInit>::new_from_slice(SK.as_bytes()).unwrap(); m.update(sts.as_bytes()); base64_simd::STANDARD.encode_to_string(m.finalize().into_bytes()) };
+    let alter: Vec<(&str, Box<dyn Fn(&str) -> String>)> = vec![
+        ("unaltered", Box::new(|s| s.to_owned())),
+        ("empty", Box::new(|_| String::new())),
+        ("first 27 characters", Box::new(|s| s[..27].to_owned())),
+        ("first 14 characters", Box::new(|s| s[..14].to_owned())),
+        ("first character", Box::new(|s| s[..1].to_owned())),
+        ("one character appended", Box::new(|s| format!("{s}A"))),
+        ("first character changed", Box::new(|s| format!("{}{}", if s.starts_with('A') { 'B' } else { 'A' }, &s[1..]))),
+    ];
+    let date = "Tue, 27 Mar 2007 19:36:42 +0000";
+    let mut n = 0;
+    for (what, f) in &alter {
+        for kind in ["header", "presigned"] {
+            n += 1;
+            let (st, calls, body) = if kind == "header" {
+                let sig = f(&sign(&format!("GET\n\n\n{date}\n/bkt/key")));
+                send("GET", "/bkt/key", "", vec![("host".into(), "localhost".into()), ("date".into(), date.into()), ("authorization".into(), format!("AWS {AK}:{sig}"))])
+            } else {
+                let expires = (time::OffsetDateTime::now_utc().unix_timestamp() + 600).to_string();
+                let sig = f(&sign(&format!("GET\n\n\n{expires}\n/bkt/key")));
+                let q = vec![("AWSAccessKeyId".to_owned(), AK.to_owned()), ("Expires".to_owned(), expires), ("Signature".to_owned(), sig)];
+                send("GET", "/bkt/key", &wire_query(&q), vec![("host".into(), "localhost".into())])
+            };
+            let accepted = calls.len() == 1;
+            let want = *what == "unaltered";
+            if accepted != want {
+                return json!({"violates": true, "input": {"kind": format!("SigV2 {kind}"), "presented_signature": what, "request": "GET /bkt/key, otherwise correctly signed"},
+                              "expected": if want { "authenticated" } else { "refused (4xx), no backend invocation" },
+                              "observed": {"status": st, "backend_calls": calls, "body": body.chars().take(160).collect::<String>()}, "replay_args": ["sigv2-tamper"]});
+            }
+        }
+    }
+    json!({"violates": false, "evaluated": n})
+}
+
+/// sigv2-append: GET /bkt/key signed correctly with signature version 2 (header auth and presigned URL) WITHOUT any sub-resource;
+/// sub-resource parameters are then appended to the query (once, twice, with values): the request now addresses another resource /
+/// operation than the one signed, so every such request must be refused
+pub fn v2_append() -> Value {
+    use sha1::Sha1;
+    let sign = |sts: &str| { let mut m = <Hmac<Sha1> as KeyInit>::new_from_slice(SK.as_bytes()).unwrap(); m.update(sts.as_bytes()); base64_simd::STANDARD.encode_to_string(m.finalize().into_bytes()) };
+    let date = "Tue, 27 Mar 2007 19:36:42 +0000";
+    let appended: Vec<Vec<(&str, &str)>> = vec![
+        vec![("acl", "")], vec![("acl", ""), ("acl", "")], vec![("acl", ""), ("acl", "x")], vec![("tagging", "")],
+        vec![("versionId", "1"), ("versionId", "2")], vec![("torrent", ""), ("torrent", "")], vec![("uploadId", "u"), ("uploadId", "u")],
+        vec![("response-content-type", "text/html"), ("response-content-type", "text/html")],
+    ];
+    let mut n = 0;
+    for extra in &appended {
+        for kind in ["header", "presigned"] {
+            n += 1;
+            let extra_q: Vec<(String, String)> = extra.iter().map(|(a, b)| ((*a).to_owned(), (*b).to_owned())).collect();
+            let (st, calls, body) = if kind == "header" {
+                let sig = sign(&format!("GET\n\n\n{date}\n/bkt/key"));
+                send("GET", "/bkt/key", &wire_query(&extra_q), vec![("host".into(), "localhost".into()), ("date".into(), date.into()), ("authorization".into(), format!("AWS {AK}:{sig}"))])
+            } else {
+                let expires = (time::OffsetDateTime::now_utc().unix_timestamp() + 600).to_string();
+                let sig = sign(&format!("GET\n\n\n{expires}\n/bkt/key"));
+                let mut q = vec![("AWSAccessKeyId".to_owned(), AK.to_owned()), ("Expires".to_owned(), expires), ("Signature".to_owned(), sig)];
+                q.extend(extra_q.iter().cloned());
+                send("GET", "/bkt/key", &wire_query(&q), vec![("host".into(), "localhost".into())])
+            };
+            // `tagging` is not in the V2 sub-resource list of the AWS document: s3s may serve it (reported separately if so)
+            if !calls.is_empty() && extra[0].0 != "tagging" {
+                return json!({"violates": true, "input": {"kind": format!("SigV2 {kind}"), "signed": "GET /bkt/key (no sub-resource)", "appended_after_signing": extra},
+                              "expected": "refused (4xx), no backend invocation: the sub-resource is part of the CanonicalizedResource",
+                              "observed": {"status": st, "backend_calls": calls, "body": body.chars().take(160).collect::<String>()}, "replay_args": ["sigv2-append"]});
+            }
+        }
+    }
+    json!({"violates": false, "evaluated": n})
+}
